@@ -25,6 +25,7 @@ from .. import drive as D
 from .. import envs as E
 from ..kernel import HarnessError, StopRun, Streams
 from ..ref import routing as RR
+from . import canaries_env as CE
 
 
 def get_ref(name, row, cfg):
@@ -367,7 +368,7 @@ class C01:
                    "MDCPDP under its one-depot reading (DESIGN 7.11)", "reference models in rlsim/ref/routing.py are "
                    "the independent problem definitions"]
     required_probes = ["row_padded", "unequal_finish"]
-    CANARIES = {}
+    CANARIES = CE.C01_CANARIES
 
     @staticmethod
     def make_plan(run_seed, tier):
@@ -396,7 +397,7 @@ class C02:
     assumptions = ["step bounds: reference step_bound() (routing) or the problem bounds of DESIGN 5/C02",
                    "uniform quota per batch for selection environments"]
     required_probes = ["row_padded", "mixed_finished_unfinished"]
-    CANARIES = {}
+    CANARIES = CE.C02_CANARIES
 
     @staticmethod
     def make_plan(run_seed, tier):
@@ -463,7 +464,7 @@ class C03:
     assumptions = ["tolerance 1e-5*max(1,|ref|)*sqrt(steps)", "padding moves of finished rows cost nothing",
                    "DPP/MDPP rewards (decap simulator) are not modelled: not listed by the property"]
     required_probes = ["reward_checked", "row_padded"]
-    CANARIES = {}
+    CANARIES = CE.C03_CANARIES
     ENVS = E.ROUTING + ["smtwtp", "fjsp", "jssp", "ffsp", "flp", "mcp"]
 
     @staticmethod
